@@ -636,11 +636,13 @@ class Facts:
         self.statics = j["statics"]
         self.impls = j["impls"]
         self._cg = None
+        self.accessed = set()
 
     def fn(self, name):
         f = self.fns.get(name)
         if f is None:
             raise AnchorMissing(f"function `{name}` not found in configuration {self.label}")
+        self.accessed.add(name)
         return f
 
     def has_fn(self, name):
@@ -666,7 +668,9 @@ class Facts:
         return c["val"]["int"]
 
     def closures_of(self, name):
-        return [f for n, f in self.fns.items() if n.startswith(name + "::{closure")]
+        out = [f for n, f in self.fns.items() if n.startswith(name + "::{closure")]
+        self.accessed.update(f.name for f in out)
+        return out
 
     # ---------------------------------------------------------------- call graph (A1)
     def callgraph(self):
